@@ -129,6 +129,7 @@ fn concurrent_crash(tape: &mut Tape, ctx: &RunCtx) -> RunOut {
         missing_dirs: true,
         preexisting: true,
         clock_small: true,
+        sampled_faults: false,
     };
     let mut run = run_conc(tape, &cfg, ctx.detail);
     let mut out = RunOut::default();
@@ -178,6 +179,14 @@ fn concurrent_crash(tape: &mut Tape, ctx: &RunCtx) -> RunOut {
         let h = build_handle(&run.main_spec, &big, &log);
         run.w.script_trigger(fresh_proc, vec![], DrawPolicy::Const(1));
         let keys = run.keys.clone();
+        // Concurrent set/put calls on a sharded cache may legitimately leave
+        // two copies of a key (documented in sharded.rs); which copy a lookup
+        // then returns is not determined, so only success and content are
+        // demanded for such a key.
+        let dup: Vec<bool> = keys
+            .iter()
+            .map(|key| fs.tree(&dirs[0].path).iter().filter(|(p, st, _)| !st.is_dir && matches!(classify(&dirs, p), Loc::Key { ref name, .. } if *name == key.name)).count() > 1)
+            .collect();
         for (ki, key) in keys.iter().enumerate() {
             let seq = [Op::Get, Op::Touch, Op::Put { tag: 7001, plen: 5 }, Op::Get, Op::Set { tag: 7002, plen: 0 }, Op::Get];
             let mut last_set = false;
@@ -189,11 +198,11 @@ fn concurrent_crash(tape: &mut Tape, ctx: &RunCtx) -> RunOut {
                 }
                 if let Ok(Out::Hit { data, .. }) = &r.out {
                     let t = parse_value(data).filter(|(k, _)| *k == key.name).map(|x| x.1);
-                    if t.is_none() || (last_set && t != Some(7002)) {
+                    if t.is_none() || (last_set && t != Some(7002) && !dup[ki]) {
                         v = Some(Violation::new("followup-wrong", format!("after a participant was killed, a lookup returned {}: {}", describe_bytes(data), r.short())));
                         break;
                     }
-                } else if last_set && matches!(op, Op::Get) {
+                } else if last_set && matches!(op, Op::Get) && !dup[ki] {
                     v = Some(Violation::new("followup-wrong", format!("lookup after set missed: {}", r.short())));
                     break;
                 }
